@@ -430,9 +430,10 @@ class DateProfiler(BaseProfiler):
                     .astype("datetime64[s]")
                     .astype("int64")
                 )
-        except OverflowError:
+        except (OverflowError, AttributeError):
             # a Timestamp outside the 64-bit nanosecond range (1677-09-21 .. 2262-04-11) has no
-            # `.value`: numpy reads Timestamps as the datetimes they are
+            # `.value`, nor has a datetime, date or numpy.datetime64 further down a column that
+            # starts with a Timestamp: numpy reads Timestamps as the datetimes they are
             seconds = None
         if seconds is None:
             seconds = numpy.array(column_data, dtype="datetime64[s]").astype("int64")
